@@ -402,7 +402,7 @@ func c19Prepare(c *runner.Ctx, write bool) (path string, x *model.XSeg, others [
 	r := c.R
 	var sg *gen.Seg
 	closer = func() {}
-	if c.Idx == 0 && c.Phase != "strace" {
+	if c.Idx%50 == 0 && c.Phase != "strace" {
 		docs, _ := gen.JumboBatch(r, 1100+r.Intn(200), fmt.Sprintf("j%d", c.Idx))
 		sg, err = gen.BuildSeg(docs, 1025)
 	} else {
